@@ -103,6 +103,11 @@ std::string demangle(const char* n)
    std::string r = (st == 0 && d) ? d : n; std::free(d); return r;
 }
 
+// ---- tuning knob of the program (GM2CALC_VERIF hook in src/gm2calc.cpp)
+unsigned g_max_iter_knob = 0; uint64_t g_knob_queries = 0;
+} // namespace
+extern "C" unsigned gm2calc_verif_max_iterations(unsigned shipped) { ++g_knob_queries; return (g_max_iter_knob && g_max_iter_knob < shipped) ? g_max_iter_knob : shipped; }
+namespace {
 // ---- the process environment as the program sees it (-Wl,--wrap=getenv,--wrap=secure_getenv)
 int g_env_mode = 0; bool g_env_active = false;
 std::map<std::string, uint64_t> g_env_queries; ///< names the program asked for (reported as probes)
@@ -158,7 +163,7 @@ void run_l1(const Scenario& s, Outcome& o)
    std::cin.exceptions(std::ios::goodbit); std::cout.exceptions(std::ios::goodbit); std::cerr.exceptions(std::ios::goodbit);
    g_steps = 0;
    sim::Watchdog::arm();
-   g_env_mode = s.env_mode; g_env_active = true;
+   g_env_mode = s.env_mode; g_env_active = true; g_max_iter_knob = s.max_iter_knob;
    try {
       o.status = gm2calc_main((int)args.size(), argv.data());
    } catch (const ExitException& e) {
@@ -470,6 +475,36 @@ struct ScaleSpace {
 };
 ScaleSpace g_scale, g_scaleq;
 
+/// the iteration budget of the on-shell conversion lowered to 1, 2, 3, 10 on: the intact SLHA-type corpus files, and
+/// every moderately scaled value of input/example.slha (inconsistent pole masses send the conversion through all of its
+/// stages: fixed-point iterations that run out of budget, the root-finder fallback)
+struct KnobSpace {
+   std::vector<size_t> files; size_t nscale = 0, total = 0;
+   static constexpr unsigned KN[4] = {1, 2, 3, 10};
+   void build()
+   {
+      for (size_t f = 0; f < g_corpus.files.size(); ++f) if (g_corpus.files[f].type == "slha") files.push_back(f);
+      for (auto& s : g_scaleq.segs) if (g_corpus.files[s.file].rel.find("example.slha") != std::string::npos) nscale = s.n / 2; // without the force_output variants
+      total = 4 * (files.size() + nscale);
+   }
+   std::vector<std::string> plan(size_t idx) const
+   {
+      if (idx >= total) return {};
+      const unsigned k = KN[idx % 4]; idx /= 4;
+      std::vector<std::string> p;
+      if (idx < files.size()) p = {"base corpus " + g_corpus.files[files[idx]].rel};
+      else {
+         idx -= files.size();
+         size_t off = 0; for (auto& s : g_scaleq.segs) { if (g_corpus.files[s.file].rel.find("example.slha") != std::string::npos) break; off += s.n; }
+         p = g_scaleq.plan(off + 2 * idx);
+      }
+      p.push_back("knob maxiter " + std::to_string(k));
+      return p;
+   }
+};
+constexpr unsigned KnobSpace::KN[4];
+KnobSpace g_knobs;
+
 /// every valid GM2CalcConfig combination (5 formats x 3 loop orders x 2^5 switches = 480) appended to a shipped file
 struct ConfigSpace {
    std::vector<size_t> files; size_t total = 0;
@@ -670,6 +705,7 @@ std::vector<std::string> plan_of(const std::string& kind, uint64_t seed, uint64_
    if (kind == "ENV") return g_envspace.plan(idx);
    if (kind == "SCALE") return g_scale.plan(idx);
    if (kind == "SCALEQ") return g_scaleq.plan(idx);
+   if (kind == "KNOB") return g_knobs.plan(idx);
    if (kind == "BOUNDARY") return g_boundary.plan(idx);
    if (kind == "BLOCKS") return g_blocks.plan(idx);
    if (kind == "BLOCKSQ") return g_blocksq.plan(idx);
@@ -689,7 +725,7 @@ int main(int argc, char** argv)
    g_fsdir = argv[3];
    mkdir(g_fsdir.c_str(), 0755);
    if (g_corpus.files.empty()) { std::printf("NOTE empty corpus\n"); }
-   g_prefix.build(false); g_prefixq.build(true); g_token.build(false); g_tokenq.build(true); g_config.build(false); g_configq.build(true); g_arglen.build(); g_cmdline.build(); g_envspace.build(); g_boundary.build(); g_blocks.build(false); g_blocksq.build(true); g_scale.build(false); g_scaleq.build(true);
+   g_prefix.build(false); g_prefixq.build(true); g_token.build(false); g_tokenq.build(true); g_config.build(false); g_configq.build(true); g_arglen.build(); g_cmdline.build(); g_envspace.build(); g_boundary.build(); g_blocks.build(false); g_blocksq.build(true); g_scale.build(false); g_scaleq.build(true); g_knobs.build();
 
    // calibrate the logical step budget on the intact corpus of the current tree
    // (in a forked child: the worker itself must not have executed the program before its first run, so that a plan
@@ -724,7 +760,7 @@ int main(int argc, char** argv)
    while (sim::read_line(line)) {
       const auto t = sim::split(line);
       if (t.empty()) continue;
-      if (t[0] == "RUNS" || t[0] == "LIGHT" || t[0] == "PREFIX" || t[0] == "PREFIXQ" || t[0] == "TOKEN" || t[0] == "TOKENQ" || t[0] == "CONFIG" || t[0] == "CONFIGQ" || t[0] == "ARGLEN" || t[0] == "BLOCKS" || t[0] == "BLOCKSQ" || t[0] == "CMDLINE" || t[0] == "ENV" || t[0] == "BOUNDARY" || t[0] == "SCALE" || t[0] == "SCALEQ" || t[0] == "CORPUS") {
+      if (t[0] == "RUNS" || t[0] == "LIGHT" || t[0] == "PREFIX" || t[0] == "PREFIXQ" || t[0] == "TOKEN" || t[0] == "TOKENQ" || t[0] == "CONFIG" || t[0] == "CONFIGQ" || t[0] == "ARGLEN" || t[0] == "BLOCKS" || t[0] == "BLOCKSQ" || t[0] == "CMDLINE" || t[0] == "ENV" || t[0] == "BOUNDARY" || t[0] == "SCALE" || t[0] == "SCALEQ" || t[0] == "KNOB" || t[0] == "CORPUS") {
          const bool rnd = t[0] == "RUNS" || t[0] == "LIGHT";
          if (t.size() < (rnd ? 4u : 3u)) { std::printf("NOTE malformed command: %s\nDONE\n", line.c_str()); continue; }
          const uint64_t seed = rnd ? std::strtoull(t[1].c_str(), nullptr, 0) : 0;
@@ -740,6 +776,7 @@ int main(int argc, char** argv)
             if (rr.sig[0]) { std::printf("CAND run=%" PRIu64 " sig=%s\n", i, rr.sig); st.add("candidates"); }
             if ((i & 63) == 0 || g_hash_all) std::printf("HASH run=%" PRIu64 " hash=%016" PRIx64 "\n", i, rr.hash);
          }
+         if (g_knob_queries) { st.add("probe_knob_hook_max_iterations_asked", g_knob_queries); g_knob_queries = 0; }
          for (auto& kv : g_env_queries) st.add("probe_getenv_" + kv.first, kv.second);
          g_env_queries.clear();
          std::string cj = "{"; bool fst = true;
@@ -750,7 +787,7 @@ int main(int argc, char** argv)
          g_hash_all = t.size() > 1 && t[1] != "0";
          std::printf("DONE\n");
       } else if (t[0] == "COUNT") {
-         std::printf("COUNT CONFIG %zu\nCOUNT CONFIGQ %zu\nCOUNT ARGLEN %zu\nCOUNT BOUNDARY %zu\nCOUNT EDGE %zu\nCOUNT SCALE %zu\nCOUNT SCALEQ %zu\nCOUNT CMDLINE %zu\nCOUNT ENV %zu\nCOUNT BLOCKS %zu\nCOUNT BLOCKSQ %zu\n", g_config.total, g_configq.total, g_arglen.total, g_boundary.total, g_boundary.edge.size(), g_scale.total, g_scaleq.total, g_cmdline.total, g_envspace.total, g_blocks.total, g_blocksq.total);
+         std::printf("COUNT CONFIG %zu\nCOUNT CONFIGQ %zu\nCOUNT ARGLEN %zu\nCOUNT BOUNDARY %zu\nCOUNT EDGE %zu\nCOUNT SCALE %zu\nCOUNT SCALEQ %zu\nCOUNT CMDLINE %zu\nCOUNT ENV %zu\nCOUNT BLOCKS %zu\nCOUNT BLOCKSQ %zu\nCOUNT KNOB %zu\n", g_config.total, g_configq.total, g_arglen.total, g_boundary.total, g_boundary.edge.size(), g_scale.total, g_scaleq.total, g_cmdline.total, g_envspace.total, g_blocks.total, g_blocksq.total, g_knobs.total);
          std::printf("COUNT PREFIX %zu\nCOUNT PREFIXQ %zu\nCOUNT TOKEN %zu\nCOUNT TOKENQ %zu\nCOUNT CORPUS %zu\nBUDGET %" PRIu64 " %" PRIu64 "\nDONE\n",
                      g_prefix.total, g_prefixq.total, g_token.total, g_tokenq.total, 2 * g_corpus.files.size(), g_budget, max_steps);
       } else if (t[0] == "DUMP" && t.size() >= 4) {
@@ -771,6 +808,7 @@ int main(int argc, char** argv)
             if (s.src == SRC_MISSING_LONG) meta += "longname " + s.longname + "\n";
             if (s.materialise_file) meta += "materialise 1\n";
             meta += "env " + std::to_string(s.env_mode) + "\n";
+            meta += "maxiter " + std::to_string(s.max_iter_knob) + "\n";
             if (s.src == SRC_TILDE) { static const char* const sp[] = {"~/input.in", "~", "~nobody/x", "~/"}; meta += std::string("tilde ") + sp[s.tilde_kind & 3] + "\n"; }
             auto esc = [](const std::string& a) { std::string o; for (char c : a) { if (c == '\\') o += "\\\\"; else if (c == '\n') o += "\\n"; else o += c; } return o; };
             for (auto& a : s.pre_args) meta += "prearg " + esc(a) + "\n";
